@@ -4,7 +4,8 @@ Mode A: 2-3 logical clients, each a dedicated thread with its own SQLite connect
 ConnectionManager), scheduled call-by-call by the harness, doing read / modify / write (auto-commit | transaction |
 with expected_phase) / retry on ONE stage with tasks through the public store API.  After every op the durable stage row
 and task rows (read through a separate connection) and the outcome (ok / ConcurrencyError) are compared with the Lean
-model `Stab.CasRow`.  The engine-level pairs (signal vs task result, …) are separate suites (engine_pairs, if present).
+model `Stab.CasRow`.  The engine-level pairs (two upstream completions on one join stage, signal vs task result, cancel vs task
+completion) run under Mode B in worker processes: harness/engine_pairs.py (started first, collected last).
 
 Torn reads: a read call (retrieve_stage, retrieve, get_{upstream,downstream,synthetic}_stages, and the upstream / synthetic
 stage objects retrieve_stage hangs on `execution.stages`) is several SQL statements.  Client A is parked (dbshim gate) before
@@ -22,7 +23,7 @@ import sqlite3
 import uuid
 from pathlib import Path
 
-from harness import core
+from harness import core, engine_pairs
 from harness.dbshim import CTL, Worker, install
 
 RULE = ("random interleavings (10-32 ops) of read / modify (append a log entry, optionally set the stage status, set a task's "
@@ -58,6 +59,11 @@ TRUSTED_BASE = [
     "the object's version, status, context, tasks)",
     "SQLite: single writer, atomic commit/rollback, UNIQUE/PRIMARY KEY enforcement (IntegrityError)",
 ]
+
+
+RULE = RULE + "; " + engine_pairs.RULE
+ASSUMPTIONS = ASSUMPTIONS + engine_pairs.ASSUMPTIONS
+TRUSTED_BASE = TRUSTED_BASE + engine_pairs.TRUSTED_BASE
 
 
 class Bed:
@@ -863,19 +869,19 @@ def _quiet() -> None:
 def run(ctx) -> None:
     install()
     _quiet()
+    pairs = engine_pairs.start(ctx)      # Mode B engine pairs run in worker processes while the store-level suites run here
     pool = Pool()
     try:
         _run_replays(ctx, pool)
         _torn_suite(ctx, pool)
         _upsert_suite(ctx, pool, ctx.n(500, 5000))
-        _suite(ctx, pool, ctx.n(3000, 25000), "cas-mode-a")
+        _suite(ctx, pool, ctx.n(3000, 16000), "cas-mode-a")
+    except BaseException:
+        pairs["pool"].terminate()
+        raise
     finally:
         pool.close()
-    try:
-        from harness import engine_pairs
-    except ImportError:
-        return
-    engine_pairs.run_for(ctx, "C07")
+    engine_pairs.finish(ctx, pairs)
 
 
 def search(ctx) -> None:
@@ -897,6 +903,9 @@ def search(ctx) -> None:
 
 
 def replay(ctx, body) -> int:
+    r0 = body.get("replay", body)
+    if isinstance(r0, dict) and "enginepair" in r0:
+        return engine_pairs.replay(ctx, body)     # Mode B installs its own connection shim
     install()
     _quiet()
     pool = Pool()
@@ -922,8 +931,6 @@ def replay(ctx, body) -> int:
                     print(f"model {name} agrees with the implementation on this schedule:", got == tb.outs)
             return 1 if tb.hits else 0
         if "ops" not in r:
-            from harness import engine_pairs
-
             return engine_pairs.replay(ctx, body)
         bed = Bed(r["status"], r["ntasks"], pool.base, pool.clients)
         try:
